@@ -20,9 +20,19 @@ func VerifHarness_C20_postgres_replan() {
 	t.AddIndexes(idxD)
 	sub := []schema.Change{&schema.DropColumn{C: c}, &schema.DropIndex{I: idxC}, &schema.AddIndex{I: idxD}, &schema.AddColumn{C: f}}
 	perm := [][]int{{0, 1, 2, 3}, {1, 0, 2, 3}, {3, 2, 1, 0}, {2, 1, 3, 0}, {1, 2, 3, 0}}[verifChoice("order", 5)]
+	// a column modification that touches type and comment at once (planners split it into statements)
+	dTo := schema.NewIntColumn("d", "bigint").SetComment("new")
+	modCol := &schema.ModifyColumn{From: schema.NewIntColumn("d", "integer").SetComment("old"), To: dTo, Change: schema.ChangeType | schema.ChangeComment}
 	var changes []schema.Change
+	modFirst := verifChoice("modcol-first", 2) == 1
+	if modFirst {
+		changes = append(changes, modCol)
+	}
 	for _, k := range perm {
 		changes = append(changes, sub[k])
+	}
+	if !modFirst {
+		changes = append(changes, modCol)
 	}
 	t2 := schema.NewTable("t2").SetSchema(sch).AddColumns(schema.NewIntColumn("id", "integer"))
 	t3 := schema.NewTable("t3").SetSchema(sch).AddColumns(schema.NewIntColumn("id", "integer"))
@@ -46,6 +56,7 @@ func VerifHarness_C20_postgres_replan() {
 	verifReach("compared")
 	verifObserve("plan", a)
 	verifAssert(a == b, "planning the same changes twice gives the same statements")
+	verifAssert(modCol.Change == schema.ChangeType|schema.ChangeComment, "planning leaves the kind of a column modification as the caller gave it")
 	verifAssert(len(mod.Changes) == len(before) && len(top) == len(topBefore), "planning does not shrink or grow the caller's change lists")
 	for k := range before {
 		if k < len(mod.Changes) {
